@@ -220,7 +220,7 @@ pub fn record_key(r: &ResourceRecord) -> Option<(RecKey, u32, bool, Vec<u8>)> {
 
 /// Dump a store under the three filters and cross-check stored (owned) records against the
 /// borrowed parse of the datagrams this node received (C16(3)).
-fn dump_manager(g: &ResourceRecordManager<'_>, entries: &mut Vec<StoreEntry>, c16: &mut Vec<String>, owned: &mut Vec<ResourceRecord<'static>>) {
+fn dump_manager(g: &ResourceRecordManager<'_>, entries: &mut Vec<StoreEntry>, c16: &mut Vec<String>, owned: &mut Vec<ResourceRecord<'static>>, auth: &mut Vec<ResourceRecord<'static>>) {
     let root = Name::new_with_labels(&[]);
     for (fname, filter) in [
         ("cached", DomainResourceFilter::cached()),
@@ -235,6 +235,9 @@ fn dump_manager(g: &ResourceRecordManager<'_>, entries: &mut Vec<StoreEntry>, c1
                 }
                 if fname == "cached" {
                     owned.push(rec.clone().into_owned());
+                }
+                if fname == "auth" {
+                    auth.push(rec.clone().into_owned());
                 }
             }
         }
@@ -255,15 +258,19 @@ fn dump_store(
     let mut entries = Vec::new();
     let mut c16 = Vec::new();
     let mut owned: Vec<ResourceRecord<'static>> = Vec::new();
+    // the node's own (application-built) records: they meet their parsed form when the node
+    // hears its own announcement or a peer's copy; only "== implies equal hashes" is asked of
+    // such a pair (built and parsed values need not be equal: that is C02, not C16)
+    let mut auth: Vec<ResourceRecord<'static>> = Vec::new();
     match store {
         StoreRef::Sync(l) => {
             let g = l.read().unwrap();
-            dump_manager(&g, &mut entries, &mut c16, &mut owned);
+            dump_manager(&g, &mut entries, &mut c16, &mut owned, &mut auth);
         }
         StoreRef::Async(l) => {
             simrt::task::block_on(async {
                 let g = l.read().await;
-                dump_manager(&g, &mut entries, &mut c16, &mut owned);
+                dump_manager(&g, &mut entries, &mut c16, &mut owned, &mut auth);
             });
         }
     }
@@ -288,6 +295,12 @@ fn dump_store(
             by_name.entry((sk.rtype, sk.owner.clone())).or_default().push((s, sk, sbytes, sttl));
         }
     }
+    let mut auth_by_name: HashMap<(u16, Labels), Vec<&ResourceRecord<'static>>> = HashMap::new();
+    for a in &auth {
+        if let Some((ak, _, _, _)) = record_key(a) {
+            auth_by_name.entry((ak.rtype, ak.owner.clone())).or_default().push(a);
+        }
+    }
     let mut budget = 4000usize; // bound the in-run oracle work per dump
     for d in seen.iter().rev() {
         let Some(dg) = ctl::dgram(*d) else { continue };
@@ -298,6 +311,13 @@ fn dump_store(
             }
             budget -= 1;
             let Some((bk, bttl, _, bbytes)) = record_key(b) else { continue };
+            if let Some(autho) = auth_by_name.get(&(bk.rtype, bk.owner.clone())) {
+                for a in autho {
+                    if *b == **a && h3(b, &rs) != h3(*a, &rs) {
+                        c16.push(format!("eq-hash: a received type {} record == the node's own registered record but hashes differently", bk.rtype));
+                    }
+                }
+            }
             let Some(cands) = by_name.get(&(bk.rtype, bk.owner.clone())) else { continue };
             for (s, sk, sbytes, sttl) in cands {
                 let eq = *b == **s;
